@@ -742,6 +742,11 @@ func NewPacket(data []byte, firstLayerDecoder Decoder, options DecodeOptions) (p
 			data = dataCopy
 		}
 	}
+	// Whatever memory backs the packet (a pooled block, the caller's buffer with
+	// NoCopy, or a fresh copy), decoders must see exactly len(data) bytes: clamp
+	// the capacity so that slicing past the end fails the same way in all modes
+	// instead of reading stale bytes of an earlier packet or of the caller.
+	data = data[:len(data):len(data)]
 	if options.Lazy {
 		lp := &lazyPacket{
 			packet: packet{data: data, decodeOptions: options},
